@@ -129,3 +129,113 @@ Proof.
   - exact F8.
   - exact W1.
 Qed.
+
+(* ---- resume reads back exactly what a full write stored ---- *)
+Lemma r_indexed_spec {V} (T : positive) (L : list (name * V)) : forall (l0 : list V) k,
+  (forall j x, nth_error l0 j = Some x -> assoc (NmI T (k + j)) L = Some x) -> r_indexed T L k (length l0) = Some l0.
+Proof.
+  induction l0 as [|x l IH]; intros k H; cbn [length r_indexed]; auto.
+  pose proof (H 0 x eq_refl) as H0. rewrite Nat.add_0_r in H0. rewrite H0.
+  rewrite IH; auto. intros j y Hj. replace (S k + j) with (k + S j) by lia. now apply H.
+Qed.
+Lemma r_blobs_some d : forall rest i pre, 0 < i ->
+  (forall j x, nth_error rest j = Some x -> assoc (NmI T_blobs (i + j)) d = Some x) ->
+  r_blobs d i (length rest) (Some pre) = Some (Some (pre ++ rest)).
+Proof.
+  induction rest as [|x rest IH]; intros i pre Hi H; cbn [length r_blobs]; [now rewrite app_nil_r|].
+  pose proof (H 0 x eq_refl) as H0. rewrite Nat.add_0_r in H0. rewrite H0.
+  destruct i as [|i']; [lia|]. rewrite IH; [now rewrite <- app_assoc|lia|].
+  intros j y Hj. replace (S (S i') + j) with (S i' + S j) by lia. now apply H.
+Qed.
+Lemma r_blobs_none d : forall n i, (forall j, assoc (NmI T_blobs j) d = None) -> r_blobs d i n None = Some None.
+Proof. induction n as [|n IH]; intros i H; cbn [r_blobs]; auto. rewrite H. now apply IH. Qed.
+
+Lemma nm_skip_indexed {V} (T : positive) (t : positive) k (l : list V) : forall k' x, In (k', x) (indexed (fun i v => (NmI T i, v)) k l) -> name_eqb (Nm t) k' = false.
+Proof. intros k' x Hin. apply in_indexed_name in Hin. destruct Hin as (i & ->). reflexivity. Qed.
+Lemma nmi_skip_indexed {V} (T T' : positive) j k (l : list V) : Pos.eqb T' T = false -> forall k' x, In (k', x) (indexed (fun i v => (NmI T i, v)) k l) -> name_eqb (NmI T' j) k' = false.
+Proof. intros Hne k' x Hin. apply in_indexed_name in Hin. destruct Hin as (i & ->). cbn [name_eqb]. now rewrite Hne. Qed.
+
+Lemma attr_read s (t : positive) : assoc (Nm t) (sampler_attrs s) =
+  assoc (Nm t) ([(Nm T_nlike, sf_nlike s); (Nm T_explored, sf_explored s); (Nm T_discard, sf_discard s); (Nm T_shn, sf_shn s); (Nm T_shns, sf_shns s);
+   (Nm T_shneff, sf_shneff s); (Nm T_shlmin, sf_shlmin s); (Nm T_shll, sf_shll s); (Nm T_shlv, sf_shlv s); (Nm T_nse, sf_nse s);
+   (Nm T_ee, sf_ee s); (Nm T_nui, sf_nui s); (Nm T_nli, sf_nli s)] ++ rng_attrs (sf_rng s)).
+Proof. unfold sampler_attrs. apply assoc_app_skip. apply nm_skip_indexed. Qed.
+
+(* the fixed datasets after the per-shell ones *)
+Definition dsets_tail (s : sfile) : list (name * tok) :=
+  [(Nm T_ptst, sf_ptst s); (Nm T_sht, sf_sht s); (Nm T_loglt, sf_loglt s)] ++ (match sf_blobst s with Some b => [(Nm T_blobst, b)] | None => [] end).
+Lemma dset_read s (t : positive) : assoc (Nm t) (sampler_dsets s) = assoc (Nm t) (dsets_tail s).
+Proof.
+  unfold sampler_dsets, dsets_tail. rewrite assoc_app_skip by apply nm_skip_indexed. rewrite assoc_app_skip by apply nm_skip_indexed.
+  destruct (sf_blobs s); [rewrite assoc_app_skip by apply nm_skip_indexed|]; reflexivity.
+Qed.
+Lemma dset_pts s j x : nth_error (sf_points s) j = Some x -> assoc (NmI T_pts (0 + j)) (sampler_dsets s) = Some x.
+Proof. intros H. unfold sampler_dsets. exact (assoc_indexed T_pts (fun v : tok => v) _ _ 0 j x H). Qed.
+Lemma dset_logl s j x : nth_error (sf_logl s) j = Some x -> assoc (NmI T_logl (0 + j)) (sampler_dsets s) = Some x.
+Proof.
+  intros H. unfold sampler_dsets. rewrite assoc_app_skip by (apply nmi_skip_indexed; reflexivity).
+  exact (assoc_indexed T_logl (fun v : tok => v) _ _ 0 j x H).
+Qed.
+Lemma dset_blobs_some s bl j x : sf_blobs s = Some bl -> nth_error bl j = Some x -> assoc (NmI T_blobs (0 + j)) (sampler_dsets s) = Some x.
+Proof.
+  intros E H. unfold sampler_dsets. rewrite E. rewrite assoc_app_skip by (apply nmi_skip_indexed; reflexivity).
+  rewrite assoc_app_skip by (apply nmi_skip_indexed; reflexivity).
+  exact (assoc_indexed T_blobs (fun v : tok => v) _ _ 0 j x H).
+Qed.
+Lemma dset_blobs_none s j : sf_blobs s = None -> assoc (NmI T_blobs j) (sampler_dsets s) = None.
+Proof.
+  intros E. unfold sampler_dsets. rewrite E. rewrite assoc_app_skip by (apply nmi_skip_indexed; reflexivity).
+  rewrite assoc_app_skip by (apply nmi_skip_indexed; reflexivity). cbn [app]. destruct (sf_blobst s); reflexivity.
+Qed.
+
+Ltac av := intros s; rewrite attr_read; destruct (sf_rng s) as [[[? ?] ?] ?]; reflexivity.
+Lemma av_rng1 s : assoc (Nm T_rng1) (sampler_attrs s) = Some (fst (fst (fst (sf_rng s)))). Proof. revert s; av. Qed.
+Lemma av_rng2 s : assoc (Nm T_rng2) (sampler_attrs s) = Some (snd (fst (fst (sf_rng s)))). Proof. revert s; av. Qed.
+Lemma av_rng3 s : assoc (Nm T_rng3) (sampler_attrs s) = Some (snd (fst (sf_rng s))). Proof. revert s; av. Qed.
+Lemma av_rng4 s : assoc (Nm T_rng4) (sampler_attrs s) = Some (snd (sf_rng s)). Proof. revert s; av. Qed.
+Lemma av_nlike s : assoc (Nm T_nlike) (sampler_attrs s) = Some (sf_nlike s). Proof. revert s; av. Qed.
+Lemma av_explored s : assoc (Nm T_explored) (sampler_attrs s) = Some (sf_explored s). Proof. revert s; av. Qed.
+Lemma av_discard s : assoc (Nm T_discard) (sampler_attrs s) = Some (sf_discard s). Proof. revert s; av. Qed.
+Lemma av_shn s : assoc (Nm T_shn) (sampler_attrs s) = Some (sf_shn s). Proof. revert s; av. Qed.
+Lemma av_shns s : assoc (Nm T_shns) (sampler_attrs s) = Some (sf_shns s). Proof. revert s; av. Qed.
+Lemma av_shneff s : assoc (Nm T_shneff) (sampler_attrs s) = Some (sf_shneff s). Proof. revert s; av. Qed.
+Lemma av_shlmin s : assoc (Nm T_shlmin) (sampler_attrs s) = Some (sf_shlmin s). Proof. revert s; av. Qed.
+Lemma av_shll s : assoc (Nm T_shll) (sampler_attrs s) = Some (sf_shll s). Proof. revert s; av. Qed.
+Lemma av_shlv s : assoc (Nm T_shlv) (sampler_attrs s) = Some (sf_shlv s). Proof. revert s; av. Qed.
+Lemma av_nse s : assoc (Nm T_nse) (sampler_attrs s) = Some (sf_nse s). Proof. revert s; av. Qed.
+Lemma av_ee s : assoc (Nm T_ee) (sampler_attrs s) = Some (sf_ee s). Proof. revert s; av. Qed.
+Lemma av_nui s : assoc (Nm T_nui) (sampler_attrs s) = Some (sf_nui s). Proof. revert s; av. Qed.
+Lemma av_nli s : assoc (Nm T_nli) (sampler_attrs s) = Some (sf_nli s). Proof. revert s; av. Qed.
+Ltac dv := intros s; rewrite dset_read; unfold dsets_tail; destruct (sf_blobst s); reflexivity.
+Lemma dv_ptst s : assoc (Nm T_ptst) (sampler_dsets s) = Some (sf_ptst s). Proof. revert s; dv. Qed.
+Lemma dv_sht s : assoc (Nm T_sht) (sampler_dsets s) = Some (sf_sht s). Proof. revert s; dv. Qed.
+Lemma dv_loglt s : assoc (Nm T_loglt) (sampler_dsets s) = Some (sf_loglt s). Proof. revert s; dv. Qed.
+Lemma dv_blobst s : assoc (Nm T_blobst) (sampler_dsets s) = sf_blobst s. Proof. revert s; dv. Qed.
+
+Theorem read_write s dflt : wf_file s -> 0 < length (sf_points s) ->
+  read_file (sf_static s) (length (sf_points s)) dflt (write_file s) = Some s.
+Proof.
+  intros (W1 & W2 & W3) Hpos. unfold read_file, write_file, kid. cbn [kids_of assoc name_eqb]. rewrite Pos.eqb_refl. cbn [attrs_of dsets_of].
+  rewrite av_rng1, av_rng2, av_rng3, av_rng4, av_nlike, av_explored, av_discard, av_shn, av_shns, av_shneff, av_shlmin, av_shll, av_shlv, av_nse, av_ee, av_nui, av_nli.
+  rewrite (r_indexed_spec T_pts (sampler_dsets s) (sf_points s) 0) by (intros j x Hj; now apply dset_pts).
+  rewrite <- W1. rewrite (r_indexed_spec T_logl (sampler_dsets s) (sf_logl s) 0) by (intros j x Hj; now apply dset_logl).
+  assert (RB : r_blobs (sampler_dsets s) 0 (length (sf_logl s)) None = Some (sf_blobs s)).
+  { destruct (sf_blobs s) as [bl|] eqn:EB.
+    - rewrite W1, <- W3. destruct bl as [|b0 bl]; [cbn [length] in W3; lia|]. cbn [length r_blobs].
+      pose proof (dset_blobs_some s (b0 :: bl) 0 b0 EB eq_refl) as H0. cbn [Nat.add] in H0. rewrite H0.
+      rewrite (r_blobs_some (sampler_dsets s) bl 1 [b0]); [reflexivity|lia|].
+      intros j x Hj. exact (dset_blobs_some s (b0 :: bl) (S j) x EB Hj).
+    - apply r_blobs_none. intros j. now apply dset_blobs_none. }
+  rewrite RB. rewrite W1, <- W2.
+  assert (RK : r_indexed T_bnd ((Nm T_sampler, Grp (sampler_attrs s) (sampler_dsets s) []) :: indexed (fun i g => (NmI T_bnd i, g)) 0 (sf_bounds s)) 0 (length (sf_bounds s)) = Some (sf_bounds s)).
+  { apply r_indexed_spec. intros j x Hj. cbn [assoc name_eqb].
+    pose proof (assoc_indexed T_bnd (fun g : h5 => g) [] (sf_bounds s) 0 j x Hj) as Ha. rewrite app_nil_r in Ha. exact Ha. }
+  rewrite RK. destruct dflt as [[d1 d2] d3].
+  rewrite dv_ptst, dv_sht, dv_loglt, dv_blobst. cbn [opt_or].
+  destruct s as [st nl ex di a1 a2 a3 a4 a5 a6 a7 a8 a9 a10 pts ll bls pt sh lt bst bnds [[[q1 q2] q3] q4]]. reflexivity.
+Qed.
+
+(* and therefore what the incremental protocol leaves on disk is read back as the newer state *)
+Theorem read_update shell s0 s1 dflt : wf_file s1 -> shell < length (sf_points s1) -> batch_frame shell s0 s1 ->
+  read_file (sf_static s1) (length (sf_points s1)) dflt (upd_file (write_file s0) s1 shell) = Some s1.
+Proof. intros W Hlt F. rewrite (update_is_full_write shell s0 s1 W Hlt F). apply read_write; [exact W|lia]. Qed.
